@@ -31,7 +31,7 @@ func VH_C10_TileID() {
 
 // C10: GB postcode ids: 5 to 7 upper-case letters/digits.
 //
-//vh:steps=4000000
+//vh:steps=4000000 split=5
 func VH_C10_Postcode() {
 	n := 5 + vChoice("len", 3)
 	if vTier() == 0 {
